@@ -364,6 +364,13 @@ func (fc *FuncCtx) execIndexAddr(fr *Frame, st *State, t *ssa.IndexAddr) {
 		sv := fc.valOf(fr, t.X)
 		s := v.asTerm(st, sv)
 		if !isSliceSort(s.Sort) {
+			if at, ok := v.tm.abstract[typeKey(t.X.Type())]; ok && at.SeqAt != "" {
+				ln := c.App(at.SeqLen, SInt, s)
+				fc.safety(st, "index", c.And(c.Cmp("<=", c.Int(0), idx), c.Cmp("<", idx, ln)), t.Pos(), "list index in range")
+				es := v.tm.SortOf(xt.Elem())
+				fr.vals[t] = Val{Loc: &Loc{Root: c.App(at.SeqAt, es, s, idx), Sort: es, GoT: xt.Elem(), RSort: es}, GoT: t.Type()}
+				return
+			}
 			unsupported("indexing an abstract list value of type %s (sort %s) at %s", t.X.Type(), s.Sort.Name, v.fset.Position(t.Pos()))
 		}
 		fc.safety(st, "index", c.And(c.Cmp("<=", c.Int(0), idx), c.Cmp("<", idx, c.FieldOf(s, 1))), t.Pos(), "slice index in range")
